@@ -10,7 +10,11 @@ import FxVerif.Model.Util
   model (`Model/C03Attest.lean`) with `H` = SHA-256; the answer is the result kind, the last observed nonce, the hash of
   the executed claim (if this vote made an attestation observed), the claim stored for `ExecuteClaim` and the attestation
   table of the nonce under vote; `pow <oracle> <power|none>` / `total <t>`: power changes between votes (delegation,
-  slashing, removal — environment); `run <nonce> <handlerFails>`: `ExecuteClaim`. -/
+  slashing, removal — environment); `run <nonce> <handlerFails>`: `ExecuteClaim`;
+* `hbt <module> <store k:v,…|-> <bt claim line>`: the regenerated statement list of `AddBridgeTokenExecuted`, interpreted;
+* `hdep <tag> <field> <dep|indep>`: a dependence of the real handlers on a field must be listed in the regenerated view;
+* `akey <nonce> <hash hex>` / `pkey <nonce>`: the bytes of `GetAttestationKey` / `GetPendingExecuteClaimKey` from the regenerated
+  layouts. -/
 open FxVerif FxVerif.Util FxVerif.Model.C03
 
 def str (s : String) : Option Str := (unhex s).map (·.map Char.ofNat)
@@ -84,6 +88,11 @@ def cfgEntry (s : String) : Option (Nat × Str) :=
   | [p, a] => do pure (← p.toNat?, ← str a)
   | _ => none
 
+def kvOf (s : String) : Option (Str × Str) :=
+  match s.splitOn ":" with
+  | [k, v] => do pure (← str k, ← str v)
+  | _ => none
+
 def indexed {α : Type} : Nat → List α → List (Nat × α)
   | _, [] => []
   | i, x :: r => (i, x) :: indexed (i + 1) r
@@ -98,6 +107,10 @@ def opLine (d : DState) : List String → Option (DState × String)
     let es ← entries.mapM cfgEntry
     let ix := indexed 0 es
     pure ({ d with st := { d.st with total := (← total.toNat?), powers := ix.map (fun p => (p.1, p.2.1)), exts := es.map (·.2) } }, "ok")
+  | ["last", n, h] => do
+    -- as `last n`, with the external block height recorded for the last observed event
+    let n ← n.toNat?
+    pure ({ st := { d.st with lastObserved := n, lastHeight := (← h.toNat?), lastByOracle := d.st.powers.map (fun p => (p.1, n)) }, focus := n + 1 }, "ok")
   | ["last", n] => do
     let n ← n.toNat?
     -- the chain has observed everything up to `n`, and so has every configured oracle
@@ -109,7 +122,7 @@ def opLine (d : DState) : List String → Option (DState × String)
     let kind := match res with
       | .ok => "ok" | .logicCheck => "err:logic-check" | .nonContiguous => "err:non-contiguous" | .panic => "panic"
     let exec := if s'.executed.length > before then ((hashHex c.path).take 16).toString else "-"
-    pure ({ d with st := s' }, s!"{kind} last={s'.lastObserved} exec={exec} pend={pendOf s' d.focus} atts={attTable s' d.focus}")
+    pure ({ d with st := s' }, s!"{kind} last={s'.lastObserved} h={s'.lastHeight} exec={exec} pend={pendOf s' d.focus} atts={attTable s' d.focus}")
   | ["pow", o, p] => do
     -- environment: the power `GetOracle(o).GetPower()` now has (`none`: the oracle is no longer found)
     let o ← o.toNat?
@@ -117,6 +130,30 @@ def opLine (d : DState) : List String → Option (DState × String)
     pure ({ d with st := stepWith [] (fun c => hashHex c.path) (fun _ _ => true) d.st (.setPower o pw) }, "ok")
   | ["total", t] => do
     pure ({ d with st := { d.st with total := (← t.toNat?) } }, "ok")
+  | "hbt" :: m :: pre :: claim => do
+    -- `Keeper.AddBridgeTokenExecuted` of module `m` on a bridge-denom store holding `pre`: the regenerated statement list
+    -- interpreted (`runAddBridgeToken`)
+    let (c, _, _) ← parseClaim claim
+    let st ← if pre == "-" then pure [] else (pre.splitOn ",").mapM kvOf
+    match c with
+    | .bt b =>
+      let h (x : Str) : String := hex (x.map Char.toNat)
+      match runAddBridgeToken (← str m) st b with
+      | .ok w => pure (d, "ok " ++ ",".intercalate ((w.map fun p => h p.1 ++ "=" ++ h p.2).foldr insertSorted []))
+      | .err => pure (d, "err")
+      | .stuck => pure (d, "stuck")
+    | _ => none
+  | ["hdep", tag, field, finding] => do
+    -- the harness changed only `field` of a claim of type `tag` and ran the real handlers on both from one state:
+    -- `finding` = dep / indep.  A dependence on a field the REGENERATED view does not list means the translator's view is
+    -- incomplete (correspondence break); `*` in the view = the whole claim
+    let vf ← AnyClaim.viewFieldsOfTag tag
+    pure (d, if finding == "indep" || vf.contains field || vf.contains "*" then "ok" else "view-misses-field")
+  | ["akey", n, h] => do
+    -- `types.GetAttestationKey(n, h)`: the regenerated layout interpreted by the model
+    pure (d, hex (keyBytes (← n.toNat?) (← unhex h) FxVerif.Gen.C03.attestationKeyParts))
+  | ["pkey", n] => do
+    pure (d, hex (keyBytes (← n.toNat?) [] FxVerif.Gen.C03.pendingClaimKeyParts))
   | ["run", n, fails] => do
     let n ← n.toNat?
     let had := (d.st.pending.lookup n).isSome
